@@ -2,11 +2,12 @@
    prv_files: the two files (thread.prv, cpu.prv) the emulator-core model writes for a run: header duration, row
    count and records (time relative to the first event, 1-based row, type, value); th_types / cpu_types: the event
    types the matching PCF declares (three system types + one per channel of the enabled models).
-   The model is compared with ovniemu's real files on every run; PCF labels, ROW names and the breakdown files are
-   judged on the real output by an independent strict reader (lib/checks/c13.py). *)
-From Coq Require Import ZArith List Bool Sorted.
+   The model is compared with ovniemu's real files on every run.  The text of the .pcf/.row files and the .prv header and
+   lines are modelled too (second half of this file: Emu/PvDefs.v); only the breakdown files are judged on the real output
+   alone, by the independent strict reader of lib/checks/c13.py. *)
+From Coq Require Import ZArith List Bool Sorted Lia.
 From OV Require Import Emu.EmuCoreDefs Emu.DecodeDefs Emu.MarkDefs Emu.LabelDefs Emu.TableFactsDefs Proofs.EmuCoreProofs Proofs.EmuCoreWf
-  Proofs.PrvProofs Proofs.LabelProofs Proofs.LabelDecode.
+  Proofs.PrvProofs Proofs.LabelProofs Proofs.LabelDecode Emu.PvDefs Proofs.PvProofs Proofs.PvThms Proofs.PvPrvProofs.
 From OV Require Gen.Tables_gen.
 Import ListNotations.
 Local Open Scope Z_scope.
@@ -71,6 +72,182 @@ Example C13_ex : exists st tl,
   existsb (fun '(tm, l) => negb (l_val l =? 0) && static_chan M_NOSV Tables_gen.c_nosv_CH_SUBSYSTEM &&
                            (l_type l =? cs_type (spec_of ex_sx (chan_of (s_chans ex_sx) M_NOSV Tables_gen.c_nosv_CH_SUBSYSTEM)))) tl = true.
 Proof. eexists. eexists. split; vm_compute; reflexivity. Qed.
+
+
+(* ====================================================================================================================
+   The WRITER layer (Emu/PvDefs.v): the bytes of thread.{pcf,row,prv} and cpu.{pcf,row,prv}.
+   [emulate sx phy en ms lintchans tl evs] = connect-time registration (system_connect, model_pvt, marks), replay of the
+   events through the emulator-core [step] with every record written through its registered PRV channel, finish
+   (task types), close.  [out] holds the six files as byte strings; [parse_pcf] / [parse_prf] read the bytes back.
+   The same six byte strings are compared with the files of the real ovniemu on every accepted trace of the check. *)
+
+(* printf("%d") is injective and can be read back *)
+Theorem C13_decimal_round_trip : forall n, undec (dec n) = Some n.
+Proof. exact undec_dec. Qed.
+Print Assumptions C13_decimal_round_trip.
+
+(* the ROW text and the PCF text determine the tables that were written *)
+Theorem C13_row_text_round_trip : forall ls, Forall no_nl ls -> parse_prf (prf_text ls) = Some ls.
+Proof. exact parse_prf_text. Qed.
+Print Assumptions C13_row_text_round_trip.
+Theorem C13_pcf_text_round_trip : forall p, (forall t, In t p -> line_wf t) -> parse_pcf (pcf_text p) = Some p.
+Proof. exact parse_pcf_text. Qed.
+Print Assumptions C13_pcf_text_round_trip.
+
+(* B1. every event type a record of the model can carry (C13_step_records_placed puts l_type in th_types / cpu_types) is
+   declared in the PCF FILE of the same PRV file, for every trace the writer model accepts *)
+Theorem C13_types_declared : forall sx phy en ms lc tl evs out,
+  inputs_ok sx phy ms tl -> s_chans sx = mk_chans en ++ mark_chans ms -> memz M_OVNI en = true ->
+  emulate sx phy en ms lc tl evs = Ok out ->
+  (forall ty, In ty (th_types sx) -> text_declares (f_pcf (o_th out)) ty) /\
+  (forall ty, In ty (cpu_types sx) -> text_declares (f_pcf (o_cpu out)) ty).
+Proof. exact types_declared. Qed.
+Print Assumptions C13_types_declared.
+
+(* B2. the ROW files, read back from their bytes, name exactly nrows rows: one per thread ("TH appid.tid") and one per
+   CPU (" CPU loom.phyid", "vCPU loom.*"), in gindex order - the order of [s_threads] / [s_cpus], which C15 proves to be
+   looms, processes, threads / CPUs by physical id with the virtual CPU last (MetaDefs.thread_list / cpu_list) *)
+Theorem C13_row_file : forall sx phy en ms lc tl evs out,
+  inputs_ok sx phy ms tl -> emulate sx phy en ms lc tl evs = Ok out ->
+  parse_prf (f_row (o_th out)) = Some (map th_label (s_threads sx)) /\
+  parse_prf (f_row (o_cpu out)) = Some (map cpu_label (combine (s_cpus sx) phy)) /\
+  length (map th_label (s_threads sx)) = length (s_threads sx) /\
+  length (map cpu_label (combine (s_cpus sx) phy)) = length (s_cpus sx).
+Proof. exact row_files. Qed.
+Print Assumptions C13_row_file.
+
+(* ... and for a system built by C15's model of system_init (MetaDefs.build), these are the names of MetaDefs.thread_list /
+   MetaDefs.cpu_list in their order: looms sorted, processes, threads by TID; CPUs of a loom by physical id, virtual CPU last *)
+Theorem C13_row_names_documented_order : forall sys sx phy, same_system sys sx phy ->
+  map th_label (s_threads sx) = map sys_th_label (MetaDefs.thread_list sys) /\
+  map cpu_label (combine (s_cpus sx) phy) = map sys_cpu_label (MetaDefs.cpu_list sys).
+Proof. exact row_names_of_system. Qed.
+Print Assumptions C13_row_names_documented_order.
+
+(* a ROW file is only written when every row was named; a row can be named once *)
+Theorem C13_row_unset_refused : forall p, In None p -> prf_close p = Err E_PRF_UNSET.
+Proof. exact prf_close_unset. Qed.
+Print Assumptions C13_row_unset_refused.
+Theorem C13_row_twice_refused : forall p i l l' p', prf_add p i l = Ok p' -> prf_add p' i l' = Err E_PRF_SET.
+Proof. exact prf_add_twice. Qed.
+Print Assumptions C13_row_twice_refused.
+
+(* B3. the bytes of the two .prv files of every trace the writer model accepts: the header carries the time of the last event
+   relative to the first (= the last recorder_advance) and the declared row count (number of threads / of CPUs), and it is
+   followed by records only, each on a row within 1..nrows and not later than the duration.  [prv_shape text d n]:
+   text = prv_header d n ++ records, every record "2:0:1:1:row:time:type:value\n" with 1 <= row <= n and time <= d.
+   (10^20 is the width of the %020lld field; times are int64.) *)
+Theorem C13_header_duration : forall sx phy en ms lc tl evs out,
+  emulate sx phy en ms lc tl evs = Ok out ->
+  let d := last_time evs - first_time evs in 0 <= d < 10 ^ 20 ->
+  prv_shape (f_prv (o_th out)) d (length (s_threads sx)) /\ prv_shape (f_prv (o_cpu out)) d (length (s_cpus sx)).
+Proof. exact prv_files_shape. Qed.
+Print Assumptions C13_header_duration.
+
+(* the pieces: prv_close rewrites the header in place; prv_advance sets the time and refuses to go back; every record is
+   written through a registered channel with that channel's row and type *)
+Theorem C13_close_rewrites_header : forall pv body,
+  pv_file pv = prv_header 0 (pv_nrows pv) ++ body ->
+  length (prv_header (pv_time pv) (pv_nrows pv)) = length (prv_header 0 (pv_nrows pv)) ->
+  prv_close pv = prv_header (pv_time pv) (pv_nrows pv) ++ body.
+Proof. exact prv_close_header. Qed.
+Print Assumptions C13_close_rewrites_header.
+Theorem C13_advance_sets_time : forall pv t pv', prv_advance pv t = Ok pv' ->
+  pv_time pv' = t /\ pv_time pv <= t /\ pv_nrows pv' = pv_nrows pv /\ pv_file pv' = pv_file pv.
+Proof. exact prv_advance_time. Qed.
+Print Assumptions C13_advance_sets_time.
+Theorem C13_record_through_channel : forall pv row ty v pv', prv_write pv row ty v = Ok pv' ->
+  exists c, In c (pv_chans pv) /\ pv_file pv' = pv_file pv ++ prv_line (pc_row1 c) (pv_time pv) (pc_type c) v /\
+            pv_time pv' = pv_time pv /\ pv_nrows pv' = pv_nrows pv /\ pv_chans pv' = pv_chans pv.
+Proof. exact prv_write_line. Qed.
+Print Assumptions C13_record_through_channel.
+
+(* B4. the values the model can print for the state types (slot_labelled of C13_values_labelled) have a value entry
+   under their type in the PCF FILES: CPU affinity 1..ncpus, thread state 1..5, every value of a dumped value table
+   (subsystem, function, idle, flush, kernel...) of an enabled model on both files, and the gid of every task type created
+   in the trace (by a process of the trace) under the task-type timeline of its model on both files *)
+Theorem C13_pcf_values : forall sx phy en ms lc tl evs out,
+  inputs_ok sx phy ms tl -> s_chans sx = mk_chans en ++ mark_chans ms -> emulate sx phy en ms lc tl evs = Ok out ->
+  exists st tlines, run_from sx (init sx) evs = Ok (st, tlines) /\
+    (forall v, 1 <= v <= Z.of_nat (length (s_cpus sx)) -> v < 2147483648 -> text_labels (f_pcf (o_th out)) PRV_THREAD_CPU v) /\
+    (forall v, 1 <= v <= 5 -> text_labels (f_pcf (o_th out)) PRV_THREAD_STATE v) /\
+    (forall k x, (k < length (mk_chans en))%nat -> let sp := spec_of sx k in
+       static_labelled (cs_model sp) (cs_index sp) x = true ->
+       text_labels (f_pcf (o_th out)) (cs_type sp) x /\ text_labels (f_pcf (o_cpu out)) (cs_type sp) x) /\
+    (forall m ch ty, memz m en = true -> task_model_chan m = Some ch -> In ty (types st) -> ty_model ty = m ->
+       In (ty_loom ty, ty_pid ty) (procs_of (s_threads sx) []) ->
+       text_labels (f_pcf (o_th out)) (int (type_of_chan Gen.Pv_gen.pv_chans m ch)) (int (ty_gid ty)) /\
+       text_labels (f_pcf (o_cpu out)) (int (type_of_chan Gen.Pv_gen.pv_chans m ch)) (int (ty_gid ty))).
+Proof. exact pcf_values. Qed.
+Print Assumptions C13_pcf_values.
+
+(* B5. refusals of the writer layer: an emulator error, never a malformed file *)
+Theorem C13_pcf_dup_type_refused : forall p id l, declared p id -> pcf_add_type p id l = Err E_PCF_DUPTYPE.
+Proof. exact pcf_add_type_dup. Qed.
+Print Assumptions C13_pcf_dup_type_refused.
+Theorem C13_pcf_dup_value_refused : forall p id x l l' p', pcf_add_value p id x l = Ok p' -> NoDup (map pt_id p) ->
+  pcf_add_value p' id x l' = Err E_PCF_DUPVAL.
+Proof. exact pcf_add_value_dup. Qed.
+Print Assumptions C13_pcf_dup_value_refused.
+Theorem C13_pcf_long_label_refused : forall p id x l, MAXL <= slen l ->
+  (forall p', pcf_add_type p id l <> Ok p') /\ (forall p', pcf_add_value p id x l <> Ok p').
+Proof. exact pcf_long_refused. Qed.
+Print Assumptions C13_pcf_long_label_refused.
+Theorem C13_prv_dup_channel_refused : forall pv row ty fl fl' pv', prv_register pv row ty fl = Ok pv' ->
+  prv_register pv' row ty fl' = Err E_PRV_DUPCHAN.
+Proof. exact prv_register_twice. Qed.
+Print Assumptions C13_prv_dup_channel_refused.
+
+(* B5 (partial): "registration never fails for well-formed inputs" is NOT proved for all inputs (it needs the freshness of
+   every (row,type) and type id through connect).  What is established: it succeeds on the concrete 2-thread, 2-CPU
+   nOS-V + marks trace below (by computation), on every accepted trace of the campaign (byte comparison with ovniemu),
+   and the registration-level refusals are reproduced by computation: *)
+(* two mark types with one type number: the second registration of (row 0, type 101) is refused *)
+Example C13_ex_refuse_dup_mark_type :
+  connect pv_ex_sx pv_ex_phy pv_ex_en
+    [{| mt_type := 1; mt_title := [65]; mt_stack := true; mt_labels := [] |}; {| mt_type := 1; mt_title := [66]; mt_stack := true; mt_labels := [] |}]
+  = Err E_PRV_DUPCHAN.
+Proof. vm_compute. reflexivity. Qed.
+(* one value with two labels *)
+Example C13_ex_refuse_dup_value :
+  connect pv_ex_sx pv_ex_phy pv_ex_en [{| mt_type := 1; mt_title := [65]; mt_stack := true; mt_labels := [(1, [97]); (1, [98])] |}] = Err E_PCF_DUPVAL.
+Proof. vm_compute. reflexivity. Qed.
+(* a 512-byte title *)
+Example C13_ex_refuse_long_label :
+  connect pv_ex_sx pv_ex_phy pv_ex_en [{| mt_type := 1; mt_title := repeat 65 512; mt_stack := true; mt_labels := [] |}] = Err E_PCF_LONG.
+Proof. vm_compute. reflexivity. Qed.
+(* two task types whose labels collide on one gid *)
+Example C13_ex_refuse_gid_collision : exists r,
+  connect pv_ex_sx pv_ex_phy pv_ex_en [] = Ok r /\
+  finish pv_ex_sx pv_ex_en
+    [{| ty_loom := 0; ty_pid := 5; ty_model := M_NOSV; ty_id := 1; ty_gid := 5000 |}; {| ty_loom := 0; ty_pid := 5; ty_model := M_NOSV; ty_id := 2; ty_gid := 5000 |}]
+    [((0%nat, 5, M_NOSV, 1), [97]); ((0%nat, 5, M_NOSV, 2), [98])] r = Err E_COLLISION.
+Proof. eexists. split; vm_compute; reflexivity. Qed.
+
+(* non-vacuity: the writer model accepts a 2-thread, 2-CPU (+ virtual CPU) nOS-V + marks trace; its thread.row names
+   "TH 1.11", "TH 1.12"; cpu.row names " CPU 0.3", " CPU 0.4", "vCPU 0.*"; thread.pcf read back from its bytes labels the
+   nOS-V subsystem value the trace shows (VSh) and declares the mark type 101 *)
+Example C13_ex_writer :
+  match pv_ex_out with
+  | Ok out =>
+    match parse_prf (f_row (o_th out)), parse_prf (f_row (o_cpu out)), parse_pcf (f_pcf (o_th out)), parse_prv_header (removelast (hd [] (lines (f_prv (o_th out))) ++ [0])) with
+    | Some rt, Some rc, Some p, Some (dur, n) =>
+      Nat.eqb (length rt) 2 && Nat.eqb (length rc) 3 && (dur =? 26) && (n =? 2) &&
+      existsb (fun t => (pt_id t =? 101)) p &&
+      existsb (fun t => (pt_id t =? cs_type (spec_of pv_ex_sx (chan_of (s_chans pv_ex_sx) M_NOSV Gen.Tables_gen.c_nosv_CH_SUBSYSTEM))) &&
+                        negb (Nat.eqb (length (pt_values t)) 0)) p
+    | _, _, _, _ => false
+    end
+  | Err _ => false
+  end = true.
+Proof. vm_compute. reflexivity. Qed.
+Example C13_ex_writer_hyps : inputs_ok pv_ex_sx pv_ex_phy pv_ex_ms (tlabels_of pv_ex_sx pv_ex_revs) /\ memz M_OVNI pv_ex_en = true.
+Proof.
+  split; [|reflexivity]. split; [reflexivity|]. split.
+  - intros m [<-|[<-|[]]]; (split; [cbn; lia|]); (split; [intros H; cbn in H; intuition discriminate|]); intros x Hx; cbn in Hx;
+      try contradiction; destruct Hx as [<-|[]]; intros H; cbn in H; intuition discriminate.
+  - intros x Hx. vm_compute in Hx. contradiction.
+Qed.
 
 (* ==== prv.c emit from source (unit prv) ==== *)
 (* check_flags of src/emu/pv/prv.c, regenerated on every run into Gen/Prv_gen.v (translate/units/prv.py): it refuses
